@@ -331,7 +331,25 @@ def analyze(ctx, want):
         r"ScannerCache::get$": (r"(Arc::<.*>::as_ptr|clone::Clone>::clone)", "read-only deref of a pointer obtained from a &Arc borrowed from the cache in the same function"),
     }
     if "C14.c" in want:
-        ctx.floor("C14.c", "user unsafe blocks", len(ub), 2)
+        # anti-vacuity: as many blocks as the library source spells `unsafe {` (removing a block lowers both numbers)
+        import os
+        from . import framework as fw_
+        n_src = 0
+        src_root = os.path.join(getattr(ctx, "repo", None) or fw_.REPO, "scnr", "src")
+        for root_, _dirs, files_ in os.walk(src_root):
+            for f_ in files_:
+                if not f_.endswith(".rs"):
+                    continue
+                try:
+                    txt = open(os.path.join(root_, f_), encoding="utf-8", errors="replace").read()
+                except OSError:
+                    continue
+                txt = txt.split("#[cfg(test)]")[0]
+                txt = re.sub(r"/\*.*?\*/", " ", txt, flags=re.S)
+                txt = re.sub(r"//[^\n]*", " ", txt)
+                txt = re.sub(r'"(\\.|[^"\\])*"', '""', txt)
+                n_src += len(re.findall(r"\bunsafe\s*\{", txt))
+        ctx.floor("C14.c", "user unsafe blocks (one per `unsafe {` of the library source)", len(ub), n_src)
     for u in ub:
         fn = F.fns.get(u["fn"])
         name = fn.name if fn else u["fn"]
@@ -396,7 +414,7 @@ def analyze(ctx, want):
     badm = [m for m in muts if not re.search(r"::(push|len|iter)$", m)]
     ob("C02.f", "class-table-only-grows", not badm, "Vec operations on the class table: %s" % [M.short_name(m) for m in muts], ac.loc())
     ob("C14.c", "class-table-only-grows", not badm, "Vec operations on the class table: %s" % [M.short_name(m) for m in muts], ac.loc())
-    ex, paths = run_fn(ac, F, BaseModel(), inline=r"ids::CharClassID::new$|CharacterClass::new$")
+    ex, paths = run_fn(ac, F, BaseModel(), inline=r"ids::CharClassID::new$|CharacterClass::(new|ast)$")
     from .common import search_table, is_eq_of
 
     def uncast(t):
@@ -408,7 +426,7 @@ def analyze(ctx, want):
        "search over %s" % sorted(set(st["source"])), ac.loc())
     # a known class: the id is exactly the position at which an equal class was found (no arithmetic on it)
     for r, ic, p in st["hit"]:
-        good = [c for c, o in ic if o is True and is_eq_of(c, r"item@bb\d+(\.1)?\)?\.ast$", r"^(?!.*item@).*\bast\b|^character_class$")]
+        good = [c for c, o in ic if o is True and is_eq_of(c, r"item@bb\d+(\.1)?\)?\.ast(\.0)?$", r"^(?!.*item@).*\bast\b|^character_class$")]
         r0 = uncast(r)
         ok = False
         if good:
@@ -417,7 +435,7 @@ def analyze(ctx, want):
             ok = r0 == ("sym", "index@bb" + n_) or (enumerated and S.fstr(r0) in ("item@bb%s.0" % n_, "(item@bb%s).0" % n_))
         ob("C02.f", "known-class-id-is-its-position", ok, "known class gets id %s under %s" % (S.vstr(r)[:60], [(S.fstr(c)[:60], o) for c, o in ic]), ac.loc())
     for ic, p in st["miss"]:
-        ok = any(o is False and is_eq_of(c, r"item@bb\d+(\.1)?\)?\.ast$", r"^(?!.*item@).*\bast\b|^character_class$") for c, o in ic)
+        ok = any(o is False and is_eq_of(c, r"item@bb\d+(\.1)?\)?\.ast(\.0)?$", r"^(?!.*item@).*\bast\b|^character_class$") for c, o in ic)
         ob("C02.f", "search-continues-only-past-different-classes", ok, "next element under %s" % [(S.fstr(c)[:60], o) for c, o in ic], ac.loc())
     if "C02.f" in want:
         ctx.floor("C02.f", "paths of add_character_class that find a known class", len(st["hit"]), 1)
@@ -495,8 +513,8 @@ def analyze(ctx, want):
         l = r = None
         if t[0] == "binop" and t[1] == "Eq":
             l, r = t[2], t[3]
-        elif t[0] == "app" and re.search(r"PartialEq(<[^>]*>)?>::eq$", str(t[1])) and len(t[2]) == 2:
-            l, r = t[2]
+        elif t[0] == "app" and re.search(r"(PartialEq(<[^>]*>)?>::eq|iter::Iterator>::eq(::<.*>)?)$", str(t[1])) and len(t[2]) == 2:
+            l, r = t[2]          # (`a.chars().eq(b.chars())` / `a.escape_default().eq(b.escape_default())`: equality of the two sequences)
         if l is None:
             return None
         ls, rs_ = S.fstr(l), S.fstr(r)
@@ -537,7 +555,7 @@ def analyze(ctx, want):
     ob("C02.f", "class-dedup-equality:different-kinds-never-equal", bool(mixed) and all(all(x == "False" for x in vs) for _, vs in mixed), "mixed-kind rows: %s" % mixed[:6], ce.loc())
     # the registry dedups with exactly this equality on the class's ast
     for c in F.closures_of(ac):
-        ex2, ps = run_fn(c, F, BaseModel())
+        ex2, ps = run_fn(c, F, BaseModel(), inline=r"CharacterClass::ast$")     # (`cc.ast()` is read as the field it returns)
         for q in ret_paths(ps):
             r = q.end[1]
             s_ = S.fstr(r)
@@ -795,15 +813,19 @@ def analyze(ctx, want):
     fb = F.fn(r"ScannerImpl as std::convert::TryFrom<&\[scanner_mode::ScannerMode\]>>::try_from$")
 
     def skeleton(fn):
+        # the calls of functions of the crate (in the body and in its closures: a loop with `push` and a `map(..).collect()` differ
+        # only in the std plumbing around them)
         seq = []
-        for bb in sorted(fn.reachable()):
-            t = fn.term(bb)
-            if t["k"] == "call":
-                n = M.call_name(t)
-                if re.search(r"clone::Clone>::clone$|IntoIterator>::into_iter$|Iterator>::next$|Iterator>::(cloned|copied)(::<.*>)?$|Deref>::deref$|<impl \[.*\]>::(len|iter)$|Vec::<.*>::len$", n):
-                    continue
-                n = re.sub(r"std::vec::IntoIter<[^>]*>|std::slice::Iter<[^>]*>", "ITER", n)
-                seq.append(M.short_name(n))
+        for f_ in [fn] + list(F.closures_of(fn)):
+            for bb in sorted(f_.reachable()):
+                t = f_.term(bb)
+                if t["k"] == "call":
+                    n = M.call_name(t)
+                    if not (n.startswith(M.CRATE_ROOTS) or (n.startswith("<") and n[1:].startswith(M.CRATE_ROOTS))):
+                        continue
+                    if re.search(r"clone::Clone>::clone$", n):
+                        continue
+                    seq.append(M.short_name(n))
         aggs = []
         for bb, i, s in fn.assigns():
             rv = s["rv"]
